@@ -49,7 +49,7 @@ Theorem C03_full_translate_keeps_invariant : forall (A : Type) (A_eq_dec : foral
   (f : F.bf A) (k : nat) (s : F.st A) (l : F.lit A) (s' : F.st A),
   F.Inv A A_eq_dec h todo s -> k <= h -> F.translate A A_eq_dec fuel h f k s = Some (l, s') ->
   F.Inv A A_eq_dec h todo s' /\ F.ext A A_eq_dec s s' /\ F.cached A A_eq_dec s' f k l.
-Proof. exact F.translate_inv. Qed.
+Proof. exact (fun A D => F.translate_inv A D boolean_clauses_spec tel_clauses_spec make_equal_spec). Qed.
 Theorem C03_full_value_is_LTLf : forall (A : Type) (A_eq_dec : forall a b : A, {a = b} + {a <> b}) (h : nat) (s : F.st A),
   F.Inv A A_eq_dec h nil s -> forall (T : F.trace A) (v : nat -> bool), F.ok_cls A T v s -> F.ok_ext A A_eq_dec v s ->
   forall (f : F.bf A) (k : nat) (l : F.lit A), F.cached A A_eq_dec s f k l -> F.ev A T v l = F.lsat A h T f k.
@@ -59,10 +59,10 @@ Theorem C03_full_step : forall (A : Type) (A_eq_dec : forall a b : A, {a = b} + 
   F.Inv A A_eq_dec h nil s -> (forall p, In p (F.pending A s) -> fst p <= S h) -> (forall p, In p roots -> fst p <= S h) ->
   F.theory_translate A A_eq_dec fuel (S h) roots s = Some s' -> F.ok_cls A T v s' -> F.ok_ext A A_eq_dec v s' ->
   forall (f : F.bf A) (k : nat) (l : F.lit A), F.cached A A_eq_dec s' f k l -> F.ev A T v l = F.lsat A (S h) T f k.
-Proof. exact F.incremental_full. Qed.
+Proof. exact (fun A D => F.incremental_full A D boolean_clauses_spec tel_clauses_spec make_equal_spec). Qed.
 Theorem C03_full_first_horizon : forall (A : Type) (A_eq_dec : forall a b : A, {a = b} + {a <> b}) (fuel : nat) (roots : list (nat * F.bf A)) (s' : F.st A),
   (forall p, In p roots -> fst p <= 0) -> F.run_list A A_eq_dec fuel 0 roots (F.init A) = Some s' -> F.Inv A A_eq_dec 0 nil s'.
-Proof. exact F.first_horizon_inv. Qed.
+Proof. exact (fun A D => F.first_horizon_inv A D boolean_clauses_spec tel_clauses_spec make_equal_spec). Qed.
 
 (* Semantic layer for the FULL body operator set: any valuation that satisfies the per-horizon definitional equations
    (the equations the Tseitin clauses of each constructor encode) is the LTLf value. *)
